@@ -24,6 +24,11 @@ CHECKS = {
                   "(thorough; 1% of length 4 in quick), random histories to length 400, refused identifiers (panic in both).",
              note="Panics on invalid identifiers are the guard of the theorems (mapM normalise = some); state after a caught panic is not compared.",
              technique="Lean 4 induction over histories (fold = declarative grouping) + differential correspondence", ref="DESIGN §7 C08"),
+ 'C09': dict(text="Theorems (all structures incl. empty containers): every count accessor equals the length of its traversal at every level (plain structure counts = first model, total counts = all models); "
+                  "flat iterators equal the nested traversal through any intermediate level; index accessors are the n-th element or nothing; reverse is the exact reverse; atoms of the hierarchy tuples are the flat atom list and every tuple names the atom's actual ancestors. "
+                  "Tie: every count / iterator / index accessor / hierarchy accessor at every level, their _mut twins (tag through &mut, read back: each element exactly once) and par_ twins under pools of 1, 2, 3, 8, 16 threads, on ragged structures.",
+             note="Thread schedules and raw-pointer aliasing of the *_mut tuples are not modelled: parallel/mutable variants are specified equal to the sequential ones and exercised by the tie only.",
+             technique="Lean 4 list inductions (length/flatMap) + differential correspondence incl. thread pools", ref="DESIGN §7 C09"),
 }
 NOT_APPLICABLE = {}
 ALL = ['C%02d' % i for i in range(1, 19)]
